@@ -766,10 +766,20 @@ impl<T: Config> UdpProtocol<T> {
             // send an input ack
             self.send_input_ack();
 
-            // delete received inputs that are too old
+            // delete received inputs that are too old, but keep the input the sender is encoding
+            // against: until one of our acks arrives, its packets keep referring to that frame
             let last_recv_frame = self.last_recv_frame();
-            self.recv_inputs
-                .retain(|&k, _| k >= last_recv_frame - 2 * self.max_prediction as i32);
+            let oldest_needed = std::cmp::min(
+                last_recv_frame - 2 * self.max_prediction as i32,
+                body.start_frame - 1,
+            );
+            self.recv_inputs.retain(|&k, _| k >= oldest_needed);
+        } else {
+            // We no longer hold the input this packet was encoded against: an earlier ack got lost
+            // and the sender still encodes against an older frame. Acknowledge what we have again,
+            // so that the sender moves its reference to a frame we still remember. Without this an
+            // endpoint that only ever sends acks (a spectator) could never recover.
+            self.send_input_ack();
         }
     }
 
